@@ -26,14 +26,19 @@ type constMap struct {
 	entries []constMapEntry
 }
 
+// constMaps is computed once (functions are verified concurrently: a reader that saw the map while
+// it was being filled treated `OperatorToString[op]` as an arbitrary lookup, and the obligations
+// of checkWithMath failed now and then - the alarm of check request 14).
 func (p *Program) constMaps() map[*ssa.Global]*constMap {
-	if p.cmaps != nil {
-		return p.cmaps
-	}
-	p.cmaps = map[*ssa.Global]*constMap{}
+	p.cmapsOnce.Do(func() { p.cmaps = p.buildConstMaps() })
+	return p.cmaps
+}
+
+func (p *Program) buildConstMaps() map[*ssa.Global]*constMap {
+	cmaps := map[*ssa.Global]*constMap{}
 	init := p.SPkg.Func("init")
 	if init == nil {
-		return p.cmaps
+		return cmaps
 	}
 	made := map[*ssa.MakeMap]*constMap{}
 	bad := map[*ssa.MakeMap]bool{}
@@ -140,10 +145,10 @@ func (p *Program) constMaps() map[*ssa.Global]*constMap {
 	}
 	for gl, cm := range cand {
 		if seenStore[gl] >= 1 {
-			p.cmaps[gl] = cm
+			cmaps[gl] = cm
 		}
 	}
-	return p.cmaps
+	return cmaps
 }
 
 // constMapOf recognises `*G` for an effectively constant global map G.
